@@ -370,6 +370,7 @@ def fmtOut (o : Nat × Out) : String :=
   | .subscribed i k a => s!"{t} subscribed {i} {fmtSubKey k} from {a}"
   | .unsubscribed i k a => s!"{t} unsubscribed {i} {fmtSubKey k} from {a}"
   | .raised e => s!"{t} raised {e.name}"
+  | .queued d e => s!"{t} queued {fmtDest d} {fmtEntry e}"
 
 def taskName (s : Stack) (tid : Nat) : String :=
   match s.getTask tid with
